@@ -98,5 +98,5 @@ ImplCtn(used) == IF Digits(used) = {} THEN RAISES ELSE MaxOr(Digits(used), 0) + 
 ImplNew(kind, op, used, turbo) ==
   CASE kind = "rid" -> ImplRid(used) [] kind = "partname" -> ImplPartname(used) [] kind = "image" -> ImplImage(used)
     [] kind = "media" -> ImplMedia(used) [] kind = "slideid" -> ImplSlideId(used) [] kind = "ctn" -> ImplCtn(used)
-    [] kind = "shape" -> IF op = "allocGap" THEN ImplShapeGap(used) ELSE ImplShapeMax(used, turbo)
+    [] kind = "shape" -> IF op \in {"allocGap", "allocFree", "allocAgain"} THEN ImplShapeGap(used) ELSE ImplShapeMax(used, turbo)
 =============================================================================
